@@ -798,6 +798,9 @@ pub fn facts(l: &Loaded, opts: &FactsOptions) -> Result<Value, String> {
             "match_index": r.match_index,
             "leftmost_first": crate::lfcheck::facts_json(r.kind, &r.pattern),
             "dfa": d.to_json(),
+            "lf_dfa": crate::lfcheck::build_lf_dfa(r.kind, &r.pattern)
+                .map(|d| d.to_json())
+                .unwrap_or(Value::Null),
         }));
     }
     top.insert("token_dfas".into(), json!(dfas));
